@@ -36,9 +36,11 @@ def oracle(ops, records, reset):
     if reset == "none":
         return None
     for i, (tok, rec) in enumerate(zip(ops, records)):
+        o = lib_txn.parse_record(rec)
+        if "LOCKED" in o["committed"] or "LOCKED" in o["working"]:
+            return (classify(ops[: i + 1]), i, "step %d (%s): the database file is locked by a pooled DBAPI connection that still has a transaction open" % (i, tok))
         if tok != "N":
             continue
-        o = lib_txn.parse_record(rec)
         if o["res"] != "ok":
             continue
         if o["working"] == "x":
@@ -102,11 +104,17 @@ def gen_sessions(rng, world, nsess, reset="rollback", queue=True):
                     yield rng.choice(["C", "C", "c0"] if nh else ["C"])
                 else:
                     yield rng.choice(["R", "R", "X", "r0"] if nh else ["R", "X"])
+                if world.plan.armed and rng.random() < 0.7:
+                    yield "D"
             elif r < 0.90 and not auto:
                 p = rng.choice("xxu")
                 yield "F" + p + ("d" if p == "u" else rng.choice("ed"))
                 yield "i%d" % k
                 k += 1
+                if world.plan.armed:
+                    # a cursor()/execute() fault that did not fire must not linger: the
+                    # isolation-level reset at check-in also runs a statement
+                    yield "D"
             elif nh:
                 yield rng.choice("crxeof") + str(rng.randrange(nh))
             else:
@@ -136,7 +144,7 @@ def run_history(rng, nsess, reset, poolclass="QueuePool"):
     ops, recs = [], []
     try:
         for tok in gen_sessions(rng, w, nsess, reset, queue=(poolclass == "QueuePool")):
-            if w.gone and tok not in ("N",) and not tok.startswith("F"):
+            if w.gone and tok not in ("N", "D") and not tok.startswith("F"):
                 continue
             ops.append(tok)
             recs.append(w.step(tok))
